@@ -40,6 +40,10 @@ func main() {
 			genVis(seed, n, os.Args[5])
 		case "scope":
 			genScope(seed, n, os.Args[5])
+		case "sev":
+			genSev(seed, n, os.Args[5])
+		case "vval":
+			genVval(seed, n, os.Args[5])
 		default:
 			fmt.Fprintln(os.Stderr, "unknown stream", os.Args[2])
 			os.Exit(2)
@@ -50,6 +54,10 @@ func main() {
 			execHost(os.Args[3], os.Args[4])
 		case "vis", "scope":
 			execWorld(os.Args[3], os.Args[4])
+		case "sev":
+			execSev(os.Args[3], os.Args[4])
+		case "vval":
+			execVval(os.Args[3], os.Args[4])
 		default:
 			os.Exit(2)
 		}
@@ -59,6 +67,10 @@ func main() {
 			oracleHost(os.Args[3], os.Args[4])
 		case "vis", "scope":
 			oracleWorld(os.Args[2], os.Args[3], os.Args[4])
+		case "sev":
+			oracleSev(os.Args[3], os.Args[4])
+		case "vval":
+			oracleVval(os.Args[3], os.Args[4])
 		default:
 			os.Exit(2)
 		}
